@@ -14,9 +14,19 @@
 #define NL 3
 #define NE 48
 
+/*
+ * Every element carries TWO hooks (the intrusive idiom): lists 1 and 2 are
+ * initialised with the offset of `n`, list 3 with the offset of `n2`, so that
+ * lists anchored at different offsets meet in swap (the property quantifies
+ * over "one or more lists"; the list's offset is part of what swap exchanges).
+ * An element is on at most one list at a time (documented domain), so one
+ * link set per element describes it, whichever hook is in use.
+ */
 struct elem {
     int key;
     struct cstl_dlist_node n;
+    long pad;
+    struct cstl_dlist_node n2;
 };
 
 static struct cstl_dlist lists[NL];
@@ -35,7 +45,7 @@ static long id_of_node(const struct cstl_dlist_node * n)
         }
     }
     for (i = 0; i < NE; i++) {
-        if (n == &pool[i].n) {
+        if (n == &pool[i].n || n == &pool[i].n2) {
             return 10 + i;
         }
         if (n == &poisonv[i]) {
@@ -47,10 +57,15 @@ static long id_of_node(const struct cstl_dlist_node * n)
 
 static long id_of_elem(const void * e)
 {
+    size_t d;
     if (e == NULL) {
         return 0;
     }
-    return id_of_node(&((const struct elem *)e)->n);
+    d = (size_t)((const char *)e - (const char *)pool);
+    if ((const char *)e < (const char *)pool || d >= sizeof(pool) || d % sizeof(struct elem) != 0) {
+        return -1;
+    }
+    return 10 + (long)(d / sizeof(struct elem));
 }
 
 static struct elem * elem_of(const char * s)
@@ -97,13 +112,13 @@ static void reset(void)
     int i;
     memset(pool, 0, sizeof(pool));
     for (i = 0; i < NL; i++) {
-        cstl_dlist_init(&lists[i], offsetof(struct elem, n));
+        cstl_dlist_init(&lists[i], i == 2 ? offsetof(struct elem, n2) : offsetof(struct elem, n));
     }
 }
 
 static int cmp_elem(const void * a, const void * b, void * p)
 {
-    (void)p;
+    h_priv_check(p, 1);
     return (((const struct elem *)a)->key > ((const struct elem *)b)->key)
            - (((const struct elem *)a)->key < ((const struct elem *)b)->key);
 }
@@ -115,7 +130,7 @@ static struct cstl_dlist * visit_list;
 
 static int visit(void * e, void * p)
 {
-    (void)p;
+    h_priv_check(p, 2);
     if (nvisited < NE) {
         visited[nvisited] = id_of_elem(e);
     }
@@ -124,8 +139,8 @@ static int visit(void * e, void * p)
          * it (frees it, links it elsewhere): overwrite both links */
         struct elem * el = e;
         cstl_dlist_erase(visit_list, e);
-        el->n.n = &poisonv[el - pool];
-        el->n.p = &poisonv[el - pool];
+        el->n.n = el->n2.n = &poisonv[el - pool];
+        el->n.p = el->n2.p = &poisonv[el - pool];
     }
     return nvisited++ == stop_at ? 7 : 0;
 }
@@ -137,9 +152,9 @@ static void clr(void * e, void * p)
     if (nvisited < NE) {
         visited[nvisited++] = id_of_elem(e);
     }
-    /* the callee owns the element now: overwrite its link */
-    el->n.n = &poisonv[el - pool];
-    el->n.p = &poisonv[el - pool];
+    /* the callee owns the element now: overwrite its links */
+    el->n.n = el->n2.n = &poisonv[el - pool];
+    el->n.p = el->n2.p = &poisonv[el - pool];
 }
 
 static void print_visited(void)
@@ -193,7 +208,7 @@ static void op(int argc, char ** argv)
         cstl_dlist_reverse(l);
         outf("ok");
     } else if (!strcmp(o, "sort") && argc == 2 && l) {
-        cstl_dlist_sort(l, cmp_elem, NULL);
+        cstl_dlist_sort(l, cmp_elem, H_PRIV(1));
         outf("ok");
     } else if (!strcmp(o, "concat") && argc == 3 && l && list_of(argv[2]) && l != list_of(argv[2])) {
         cstl_dlist_concat(l, list_of(argv[2]));
@@ -207,14 +222,14 @@ static void op(int argc, char ** argv)
         stop_at = (int)h_int(argv[3]);
         erase_mask = strtoul(argv[4], NULL, 10);
         visit_list = l;
-        r = cstl_dlist_foreach(l, visit, NULL,
+        r = cstl_dlist_foreach(l, visit, H_PRIV(2),
                                argv[2][0] == 'f' ? CSTL_DLIST_FOREACH_DIR_FWD : CSTL_DLIST_FOREACH_DIR_REV);
         outf("%d ", r);
         print_visited();
     } else if (!strcmp(o, "find") && argc == 4 && l) {
         struct elem probe;
         probe.key = (int)h_int(argv[3]);
-        outf("%ld", id_of_elem(cstl_dlist_find(l, &probe, cmp_elem, NULL,
+        outf("%ld", id_of_elem(cstl_dlist_find(l, &probe, cmp_elem, H_PRIV(1),
                                argv[2][0] == 'f' ? CSTL_DLIST_FOREACH_DIR_FWD : CSTL_DLIST_FOREACH_DIR_REV)));
     } else if (!strcmp(o, "clear") && argc == 2 && l) {
         nvisited = 0;
@@ -225,7 +240,8 @@ static void op(int argc, char ** argv)
             int i, okp = 1;
             for (i = 0; i < nvisited && i < NE; i++) {
                 long id = visited[i];
-                if (id >= 10 && id < 10 + NE && (pool[id - 10].n.n != &poisonv[id - 10] || pool[id - 10].n.p != &poisonv[id - 10])) {
+                if (id >= 10 && id < 10 + NE && (pool[id - 10].n.n != &poisonv[id - 10] || pool[id - 10].n.p != &poisonv[id - 10]
+                    || pool[id - 10].n2.n != &poisonv[id - 10] || pool[id - 10].n2.p != &poisonv[id - 10])) {
                     okp = 0;
                 }
             }
